@@ -3,6 +3,7 @@ import ast
 
 from sa.core import AnalysisError, norm
 from sa.pat import AnyOf
+from rules._shared import broadcast_prune_rules
 from rules._shared import straight_line
 
 TECHNIQUE = ('static analysis: pairing of every broadcast-table mutation with '
@@ -197,6 +198,8 @@ def check(c):
                  and norm(n.iter).endswith('.items()')]
         c.ob('C22.all-leaves', f'{f.fq} :: {what} loops over .items()',
              bool(loops), c.where(f.node, f), '')
+    # ---- cancel prunes queued inserts only on an exact match
+    broadcast_prune_rules(c, 'C22')
 
 
 VARIANTS = [
@@ -249,4 +252,16 @@ VARIANTS = [
      '''            if not is_cancel:
                 self.db_deletes_map[self.TABLE_BROADCAST_STATES].append({''',
      'C22.persist'),
+    ('prune-on-any-match', 'cylc/flow/workflow_db_mgr.py',
+     '''                    if any(insert[key] != broadcast_change[key]
+                           for key in ["point", "namespace", "key"]):''',
+     '''                    if not any(insert[key] == broadcast_change[key]
+                               for key in ["point", "namespace", "key"]):''',
+     'C22.broadcast-prune'),
+    ('benign-prune-not-all', 'cylc/flow/workflow_db_mgr.py',
+     '''                    if any(insert[key] != broadcast_change[key]
+                           for key in ["point", "namespace", "key"]):''',
+     '''                    if not all(insert[key] == broadcast_change[key]
+                               for key in ("key", "point", "namespace")):''',
+     None),
 ]
